@@ -21,7 +21,7 @@ import time
 HERE = os.path.dirname(os.path.abspath(__file__))
 sys.path.insert(0, os.path.dirname(HERE))
 
-from sim import c12, c13, minimise, runner, workload  # noqa: E402
+from sim import c12, c13, minimise, proc, runner, workload  # noqa: E402
 from sim.common import (  # noqa: E402
     ENGINE_VERSION,
     EXIT_HARNESS,
@@ -217,6 +217,12 @@ EXPECTED_PROBES = {
 
 
 # --------------------------------------------------------------------------
+def _minimise_child(arg):
+    spec, kind = arg
+    runner.set_isolation("reimport")
+    return minimise.minimise(spec, kind, runner.evaluate, max_cands=600, max_s=90.0)
+
+
 def report_violation(prop, s, repo, cfg):
     """Minimise (in this process: it forks pristine children itself), write the
     replay file, return its path."""
@@ -229,10 +235,13 @@ def report_violation(prop, s, repo, cfg):
         viols0, _, _ = runner.evaluate(json.loads(json.dumps(spec)))
         if not any(v["kind"] == kind for v in viols0):
             raise HarnessError("violation kind %s of run %s found with in-process module isolation does not reproduce in a freshly forked process" % (kind, s["index"]))
-        # shrink with the cheap in-process isolation, then confirm the result in a fresh process
-        runner.set_isolation("reimport")
-        small, stats = minimise.minimise(spec, kind, runner.evaluate, max_cands=600, max_s=90.0)
-        runner.set_isolation("fork")
+        # shrink with the cheap in-process isolation (inside one forked child, so
+        # that a hang of a candidate cannot hang the check), then confirm the
+        # result in a fresh process
+        try:
+            small, stats = proc.call_in_child(_minimise_child, (spec, kind), timeout=240, what="minimiser")
+        except HarnessError as e:
+            small, stats = spec, {"note": "minimiser stopped: %s" % str(e)[:300]}
         viols, result, _ = runner.evaluate(json.loads(json.dumps(small)))
         if not any(v["kind"] == kind for v in viols):
             small, stats = spec, {"note": "minimised run did not reproduce; reporting the unminimised one"}
@@ -387,7 +396,7 @@ def cmd_digests(args):
     idxs = [int(x) for x in idxs.split(",") if x]
     repo = os.path.realpath(args.repo)
     cfg = build_cfg(repo, tier)
-    pool = make_pool(repo, cfg, int(args.workers or 3), isolation="fork")
+    pool = make_pool(repo, cfg, int(args.workers or 3), isolation=args.isolation or "fork")
     out = {}
     for s in pool.map(runner.one_run, [(prop, seed, i) for i in idxs]):
         if "harness_error" in s:
@@ -440,6 +449,7 @@ def main():
     ap.add_argument("--no-det", action="store_true")
     ap.add_argument("--digests", nargs=4)
     ap.add_argument("--mutants")
+    ap.add_argument("--isolation", choices=["fork", "reimport"])
     args = ap.parse_args()
     if args.digests:
         return cmd_digests(args)
